@@ -34,3 +34,12 @@ BUILT['C04'] = (
     "with all options; q/-q equality and the three embeddings (single- and multi-valued) are checked on points; all three "
     "largest-diagonal branches of r2q are required line-reach targets",
     NOTE, "DESIGN.md 4 C04")
+BUILT['C05'] = (
+    "runtime contracts on the extraction (tr2rpy/tr2eul/tr2angvec/tr2xyt) and construction (rpy2r/eul2r/angvec2r/xyt2tr) "
+    "functions with reconstruction through reference elementary rotations; class accessors judged at their boundary; "
+    "required line reach of every singular/argmax branch",
+    "every in-domain extraction must rebuild the rotation to 1e-6 through the harness's own Rz/Ry/Rx products in the "
+    "documented order, with angle ranges and unit-axis checked, at exactly singular configurations and 1e-12..1e-1 on either "
+    "side; constructors are compared with the documented ordered product; deg = rad*180/pi; all 15 pitch formulas of tr2rpy "
+    "and all branches of tr2eul are required line-reach targets",
+    NOTE, "DESIGN.md 4 C05")
